@@ -45,7 +45,10 @@ Proof.
   destruct o; cbn [step]; try (left; reflexivity);
     try (new_flows_tac s fresh_grant_pkce ltac:(left; reflexivity); left; cbn in *; now rewrite FGfact).
   - unfold authorize. destruct (cf_par_enforced cfg); [auto|].
-    destruct (clients s (az_client a)) as [cl|]; [|auto]. left. now apply authorize_core_pkce_old.
+    destruct (clients s (az_client a)) as [cl|]; [|auto]. left.
+    destruct (az_rtype a); [now apply authorize_core_pkce_old| |].
+    + destruct (authorize_implicit_effect cfg s cl a) as [_ [_ [_ [_ [_ [_ [_ [_ [Hold _]]]]]]]]]. exact (proj1 (proj2 (Hold k Hk))).
+    + destruct (authorize_hybrid_effect cfg s cl a) as [_ [_ [_ [_ [_ [_ [_ [_ [Hold _]]]]]]]]]. exact (proj1 (proj2 (Hold k Hk))).
   - unfold redeem.
     destruct auth as [c|]; [|auto].
     destruct (clients s c) as [cl|]; [|auto].
@@ -138,7 +141,7 @@ Qed.
    to that challenge under the method fixed at authorization time *)
 Theorem pkce_binding cfg cls h1 a h2 auth redirect v vh tampered :
   let s1 := run cfg (state0 cls) h1 in
-  o_err (snd (authorize cfg s1 a)) = "" -> az_challenge a <> "" ->
+  az_rtype a = RCode -> o_err (snd (authorize cfg s1 a)) = "" -> az_challenge a <> "" ->
   let s2 := run cfg (fst (authorize cfg s1 a)) h2 in
   let code := {| p_ref := CRef (List.length (log s1)); p_tampered := tampered |} in
   o_err (snd (redeem cfg s2 auth code redirect v vh)) = "" ->
@@ -146,9 +149,9 @@ Theorem pkce_binding cfg cls h1 a h2 auth redirect v vh tampered :
   (if String.eqb (az_method a) "S256" then vh = az_challenge a else v = az_challenge a) /\
   (az_method a = "S256" \/ ((az_method a = "plain" \/ az_method a = "") /\ cf_pkce_plain cfg = true)).
 Proof.
-  intros s1 Hok Hch s2 code Hred.
+  intros s1 Hrt Hok Hch s2 code Hred.
   assert (I1 : Inv s1) by apply Inv_reachable.
-  destruct (authorize_stores_challenge cfg s1 a Hok) as [cl [Hcl [k [Hlog [_ Hstore]]]]].
+  destruct (authorize_stores_challenge cfg s1 a Hrt Hok) as [cl [Hcl [k [Hlog [_ Hstore]]]]].
   destruct Hstore as [pr [Hp [Hc [Hm Hrcl]]]]; [intros [H _]; contradiction|].
   set (sa := fst (authorize cfg s1 a)) in *.
   assert (Ia : Inv sa) by (unfold sa; change (authorize cfg s1 a) with (step cfg s1 (OAuthorize a)); now apply Inv_step).
